@@ -4,7 +4,7 @@ import json, subprocess
 from plans import PLANS, LEVEL
 
 HOOK_COMMITS = ["6653079"]
-FIX_COMMITS = ["3f74f98", "e572c24", "f6fe648", "21e053f", "a0d3ecc"]
+FIX_COMMITS = ["3f74f98", "e572c24", "f6fe648", "21e053f", "a0d3ecc", "936095d"]
 
 TEXT = {
     "C01": ("exploration", "DESIGN.md §3 C01",
@@ -72,6 +72,12 @@ TEXT.update({
             "exactly-once / never / precedence-graph-acyclicity oracle over delivery events"),
 })
 
+TEXT.update({
+    "C18": ("exploration", "DESIGN.md §3 C18",
+            "Differential monitoring: the harness is built three times against hannibal with the tokio, async-std and smol runtime features (hooks off) and runs the complete catalogue of spawn entry points x timing-independent programs on each; the normalised outcome records must be identical, stable across repeats, and the actor must answer a ping after every spawn call returned.",
+            "differential outcome-record comparison across three runtime builds"),
+})
+
 NOT_YET = "check not built yet in this revision (planned, see DESIGN.md §3)"
 
 def main():
@@ -107,6 +113,8 @@ def main():
             "add_only": True,
         },
         "engines": [
+            {"name": "xrt", "path": "/verif/hv (features rt_tokio | rt_async | rt_smol, no hook)", "serves_properties": ["C18"],
+             "kind_free_text": "three builds of the harness against hannibal's three runtime features running the same single-client programs on the real runtimes; records compared by the driver"},
             {"name": "l1", "path": "/verif/hv (feature l1)", "serves_properties": sorted(k for k in PLANS if "l1" in PLANS[k]["engines"]),
              "kind_free_text": "seeded single-threaded controlled executor with virtual clock, fault plan and task census running the unmodified hannibal actor loops through the verif shim; offline oracles over the recorded event log"},
         ],
